@@ -80,6 +80,15 @@ class MachineBase(object):
         if key is not None:
             self.distinct.setdefault(prop, set()).add(h64(key))
 
+    def soft(self, v):
+        """Raise `v` unless it is a listed known finding, in which case it is recorded and the run goes on
+        (only used where continuing is safe: the model is still in step with the object)."""
+        key = "%s:%s" % (v.prop, v.cause_key)
+        if key in CTX.known_keys:
+            CTX.known_hits[v.cause_key] = CTX.known_hits.get(v.cause_key, 0) + 1
+            return
+        raise v
+
     def state_hash(self):
         return 0
 
@@ -92,6 +101,8 @@ def run_case(case, want_log=False):
     seams.install()
     cfg = case.get("cfg", {})
     CTX.reset(cfg)
+    if CTX.known_keys is None:
+        CTX.known_keys = set("%s:%s" % (k["property"], k["cause_key"]) for k in load_known() if k.get("status") == "known")
     m = machine_class(case["machine"])(CTX, cfg)
     log = []
     vrec = None
@@ -123,6 +134,7 @@ def run_case(case, want_log=False):
         "nops": nexec,
         "faults": dict(CTX.faults),
         "probes": dict(CTX.probes),
+        "known_hits": dict(CTX.known_hits),
         "evals": dict(m.evals),
         "distinct": dict((k, sorted(v)) for k, v in m.distinct.items()),
     }
@@ -190,6 +202,8 @@ def _worker(args):
                 agg["faults"][k] = agg["faults"].get(k, 0) + v
             for k, v in res["probes"].items():
                 agg["probes"][k] = agg["probes"].get(k, 0) + v
+            for k, v in res["known_hits"].items():
+                agg["known"][k] = agg["known"].get(k, 0) + 1
             agg["evals"] += res["evals"].get(prop, 0)
             agg["distinct"].update(res["distinct"].get(prop, ()))
             b = min(len(case["ops"]) // 4 * 4, 96)
